@@ -16,8 +16,8 @@ func jsonMarshal(v any) ([]byte, error)    { return json.Marshal(v) }
 // See /verif/DESIGN.md section 3.
 var properties = map[string]*Property{
 	"C01": {
-		Rules:      []string{"R-HINT", "R-CTXTYPE", "R-TABLES", "R-CTX-MIRROR", "R-NAMECMP", "R-CTX-KEYS", "R-LIFECYCLE", "R-MODE-ORDER", "R-PAYLOAD-MIRROR", "R-CHUNK-STATE", "R-FIELD-WIDTH", "R-EMIT-EXACT", "R-HDR-MIRROR"},
-		Decided:    "the advisory size hint cannot steer which data is encoded (non-interference: hint-derived values reach no branch, loop bound, index or slice bound of the Writer data path); every context key is stored with the type every consumer asserts (no configuration accepted at construction can fail a type assertion at the first block); every codec name accepted at construction has a constructor case in every factory. Encode and decode tasks publish the same context keys (block size for the transform stage, post-transform size for the entropy stage) before creating their codecs. Every context key a codec constructor consults is published on the writing side and on both reading sides, so both build the same codec variant; an empty input still produces a framed stream (header before the empty-buffer return). In the block tasks the codecs are built from the task's transform/entropy type only after its last assignment. The size-hint header field fits the width it is written with for every value of the hint (interval argument over the tests that choose the width). The encode task emits exactly the bit count its private bitstream reports. The headerless initialisation of the Reader fills every field that the header parser fills and the read path uses.",
+		Rules:      []string{"R-HINT", "R-CTXTYPE", "R-TABLES", "R-CTX-MIRROR", "R-NAMECMP", "R-CTX-KEYS", "R-LIFECYCLE", "R-MODE-ORDER", "R-PAYLOAD-MIRROR", "R-CHUNK-STATE", "R-FIELD-WIDTH", "R-EMIT-EXACT", "R-HDR-MIRROR", "R-OWN", "R-HINT-READER"},
+		Decided:    "the advisory size hint cannot steer which data is encoded (non-interference: hint-derived values reach no branch, loop bound, index or slice bound of the Writer data path); every context key is stored with the type every consumer asserts (no configuration accepted at construction can fail a type assertion at the first block); every codec name accepted at construction has a constructor case in every factory. Encode and decode tasks publish the same context keys (block size for the transform stage, post-transform size for the entropy stage) before creating their codecs. Every context key a codec constructor consults is published on the writing side and on both reading sides, so both build the same codec variant; an empty input still produces a framed stream (header before the empty-buffer return). In the block tasks the codecs are built from the task's transform/entropy type only after its last assignment. The size-hint header field fits the width it is written with for every value of the hint (interval argument over the tests that choose the width). The encode task emits exactly the bit count its private bitstream reports. The headerless initialisation of the Reader fills every field that the header parser fills and the read path uses. Each block task works on its own copy of the context map (nothing learned from one block steers another). On the reading side the recorded original size decides no error.",
 		NotDecided: "byte equality of the round trip, codec correctness, buffer sizing, expansion bounds.",
 	},
 	"C02": {
@@ -47,17 +47,17 @@ var properties = map[string]*Property{
 	},
 	"C07": {
 		Rules:      []string{"R-TOKEN", "R-CANCEL", "R-POISON", "R-ERRSTATE", "R-SKIP-ORDER", "R-EOS-ONLY", "R-GOREC", "R-RESULT-SLOT"},
-		Decided:    "exclusive and ordered access to the shared stream (dominance by the acquire edge, nothing after release); every task exit passes the token or cancels, including panics; waiters have a cancel exit; every task joins; a failure is reported by the enclosing call and stays reported. Every task goroutine recovers at its entry (a panic in a task becomes a task error, not a crash). The slot a task reports into is an element of the very slice the parent scans after Wait, and that slice is not re-allocated (grown by append without reserved capacity) while tasks hold slots.",
+		Decided:    "exclusive and ordered access to the shared stream (dominance by the acquire edge, nothing after release); every task exit passes the token or cancels, including panics; waiters have a cancel exit; every task joins; a failure is reported by the enclosing call and stays reported. Every task goroutine recovers at its entry (a panic in a task becomes a task error, not a crash). The slot a task reports into is an element of the very slice the parent scans after Wait, and that slice is not re-allocated (grown by append without reserved capacity) while tasks hold slots. The ids of a batch are based on a counter value read while no task of the batch runs.",
 		NotDecided: "fairness/timing (\"promptly\"); memory-model subtleties beyond all accesses being sync/atomic.",
 	},
 	"C08": {
-		Rules:      []string{"R-PANIC-API", "R-IOERR", "R-EOS-ERR", "R-CLOSE-ORDER", "R-POISON", "R-ERRSTATE", "R-REFILL", "R-SKIP-ORDER", "R-CANCEL", "R-RESULT-SLOT", "R-BS-PANIC"},
-		Decided:    "no declared bitstream panic escapes the Writer/Reader API; no error of the underlying sink/source is dropped; a source error is never turned into a clean end of stream by the refill; closed flags are set only after successful flush/close; a failed write batch cannot be followed by a successful Close. A block is classified as skipped only after its payload was read, so a source failure inside a skipped block is still an error. The exit handlers turn every recovered panic – whatever its dynamic type – into a task error. No error value of the shared bitstream (Close, HasMoreToRead) is discarded in the stream layer; the command-line tool looks at the error of every Read/Write/Close of the compressed stream and of its files on every path. No function of the bitstream package (tracing wrappers included) recovers a failure and then returns normally. Task results are reported into slots the parent actually reads.",
+		Rules:      []string{"R-PANIC-API", "R-IOERR", "R-EOS-ERR", "R-CLOSE-ORDER", "R-POISON", "R-ERRSTATE", "R-REFILL", "R-SKIP-ORDER", "R-CANCEL", "R-RESULT-SLOT", "R-BS-PANIC", "R-EOS-ONLY"},
+		Decided:    "no declared bitstream panic escapes the Writer/Reader API; no error of the underlying sink/source is dropped; a source error is never turned into a clean end of stream by the refill; closed flags are set only after successful flush/close; a failed write batch cannot be followed by a successful Close. A block is classified as skipped only after its payload was read, so a source failure inside a skipped block is still an error. The exit handlers turn every recovered panic – whatever its dynamic type – into a task error. No error value of the shared bitstream (Close, HasMoreToRead) is discarded in the stream layer; the command-line tool looks at the error of every Read/Write/Close of the compressed stream and of its files on every path. No function of the bitstream package (tracing wrappers included) recovers a failure and then returns normally. Task results are reported into slots the parent actually reads. Every caller of the batch functions looks at the returned error on every path (new entry points included); a decode task ends cleanly only at the end marker, on cancellation or on a skip.",
 		NotDecided: "counter restoration arithmetic in DefaultOutputBitStream.Close.",
 	},
 	"C09": {
 		Rules:      []string{"R-EOS-ONLY", "R-EOS-ERR", "R-CLOSE-ORDER", "R-PANIC-API", "R-ERRSTATE", "R-BATCH-ONLY", "R-EOF-AT-END", "R-CANCEL", "R-IOERR", "R-BS-PANIC"},
-		Decided:    "the only clean exits of a decode task are cancel, end marker, range skip and normal completion; exhausting the source is an error (panic) that the recovering frames turn into a reported error; the writer emits the end marker on every successful close. The Reader's batch function reports success only after a batch of tasks ran (which ends only at the end marker) or after a cancellation; io.EOF is produced only behind that. The exit handler of a decode task turns every recovered panic, whatever its dynamic type, into a task error. The end-of-source failure raised by the bitstream is not swallowed by any bitstream wrapper, a failed source read is not answered with io.EOF by discarding the error of HasMoreToRead, and the command-line tool cannot lose the error of Reader.Read between the call and the exit status.",
+		Decided:    "the only clean exits of a decode task are cancel, end marker, range skip and normal completion; exhausting the source is an error (panic) that the recovering frames turn into a reported error; the writer emits the end marker on every successful close. The Reader's batch function reports success only after a batch of tasks ran (which ends only at the end marker) or after a cancellation; io.EOF is produced only behind that. The exit handler of a decode task turns every recovered panic, whatever its dynamic type, into a task error. The end-of-source failure raised by the bitstream is not swallowed by any bitstream wrapper, a failed source read is not answered with io.EOF by discarding the error of HasMoreToRead, and the command-line tool cannot lose the error of Reader.Read between the call and the exit status. Every caller of the Reader's batch function looks at its error before anything else can end the read.",
 		NotDecided: "bit-level behaviour of the partial last word in pull().",
 	},
 	"C10": {
@@ -81,8 +81,8 @@ var properties = map[string]*Property{
 		NotDecided: "in-bounds output and inverse exactness (numeric).",
 	},
 	"C14": {
-		Rules:      []string{"R-BS-CLOSED", "R-BITCOUNT", "R-REFILL", "R-REFUSE-CLEAN"},
-		Decided:    "closed bitstreams refuse further operations (Close stores the closed state; every operation that touches the buffer tests it first). Counter clause, by an affine-equality analysis of the methods: the value returned by Written()/Read() advances by exactly the bit count of WriteBits, WriteArray, ReadBit and ReadBits and these return that count; flush, refill, HasMoreToRead and both Close methods conserve it at every return; a failed Close of the writer restores every integer field. The reader refills completely (a partial 64-bit word only at the end of the source), which the bulk read paths rely on. An operation refused by a closed stream has not stored any field the counter is computed from before the closed state is tested.",
+		Rules:      []string{"R-BS-CLOSED", "R-BITCOUNT", "R-REFILL", "R-REFUSE-CLEAN", "R-WORD-BUF"},
+		Decided:    "closed bitstreams refuse further operations (Close stores the closed state; every operation that touches the buffer tests it first). Counter clause, by an affine-equality analysis of the methods: the value returned by Written()/Read() advances by exactly the bit count of WriteBits, WriteArray, ReadBit and ReadBits and these return that count; flush, refill, HasMoreToRead and both Close methods conserve it at every return; a failed Close of the writer restores every integer field. The reader refills completely (a partial 64-bit word only at the end of the source), which the bulk read paths rely on. An operation refused by a closed stream has not stored any field the counter is computed from before the closed state is tested. The internal buffers hold a whole number of 64-bit words (constructor test or rounding).",
 		NotDecided: "the values read back and the byte image (bit arithmetic); the counter clause for WriteBit and ReadArray (they depend on inequality invariants the affine domain cannot express); guards are ignored, so a wrong loop bound is not seen.",
 		Assumptions: []string{"integer arithmetic in the bitstreams does not wrap", "a signed residual counter tested against 0 is never negative (A4)", "a unit-step counting loop exits exactly at its bound (A5)"},
 	},
@@ -92,8 +92,8 @@ var properties = map[string]*Property{
 		NotDecided: "removal of NONE fillers (loop in GetType); stream byte equality.",
 	},
 	"C17": {
-		Rules:      []string{"R-LIFECYCLE", "R-CLOSE-ORDER", "R-BITCOUNT"},
-		Decided:    "Write/Read after Close fail at entry before any effect; Close is idempotent at entry; an empty stream is still framed (header before the empty-buffer return); closed is set only after successful close. The bit counters behind GetWritten/GetRead are conserved by flush, refill and Close at every return including the failing ones (hence monotone across failures), and a failed bitstream Close restores the state a retry starts from (affine-equality analysis, R-BITCOUNT).",
+		Rules:      []string{"R-LIFECYCLE", "R-CLOSE-ORDER", "R-BITCOUNT", "R-FLUSH-STEP", "R-HINT-READER"},
+		Decided:    "Write/Read after Close fail at entry before any effect; Close is idempotent at entry; an empty stream is still framed (header before the empty-buffer return); closed is set only after successful close. The bit counters behind GetWritten/GetRead are conserved by flush, refill and Close at every return including the failing ones (hence monotone across failures), and a failed bitstream Close restores the state a retry starts from (affine-equality analysis, R-BITCOUNT). A sink write inside a loop of the output bitstream is accounted for within the iteration (a retried Close cannot send bytes twice). No error of the read path is decided by the recorded original size (a Writer closed with less data than its hint still yields a readable stream).",
 		NotDecided: "returned lengths, call-history semantics, the byte counters of the stream layer above the bitstream.",
 	},
 	"C18": {
